@@ -44,12 +44,26 @@ pub fn check_pair(run: &mut Run, a: MCell, b: MCell, depth: i32) {
     if ia == ib {
         return;
     }
-    let (a, ia, ib) = if ia < ib { (a, ia, ib) } else { (b, ib, ia) };
+    let (a, b_cell, ia, ib) = if ia < ib { (a, b, ia, ib) } else { (b, a, ib, ia) };
     let case = || json!({"a": hu(ia), "b": hu(ib), "res": a.res, "depth": depth});
     let mut differs_above = false;
     for t in 1..=a.res {
         match (parent(ia, Some(t)), parent(ib, Some(t))) {
             (Ok(pa), Ok(pb)) => {
+                // the cell lies inside the id interval of what is reported as its ancestor (by the layout model: the ancestor's
+                // first and last descendant of the cell's resolution)
+                for (x, px) in [(a, pa), (b_cell, pb)] {
+                    let ok = decode(px).filter(|p| p.res == t).map(|p| {
+                        let shift = 2 * (x.res - t) as u32;
+                        let (lo, hi) = if t >= 1 { (encode(MCell::new(x.res, p.face, p.q, if shift >= 64 { 0 } else { p.s << shift })), encode(MCell::new(x.res, p.face, p.q, if shift >= 64 { u64::MAX } else { (p.s << shift) | ((1u64 << shift) - 1) }))) } else { (0, u64::MAX) };
+                        let ix = encode(x);
+                        t == 0 || (ix >= lo && ix <= hi)
+                    });
+                    if ok == Some(false) {
+                        run.violation("C20.interval", case(), format!("cell {} lies outside the id interval of {} which cell_to_parent reports as its ancestor at resolution {t}", hu(encode(x)), hu(px)));
+                        return;
+                    }
+                }
                 if pa > pb {
                     run.violation("C20.ancestors", case(), format!("a < b but ancestor at {t}: {} > {}", hu(pa), hu(pb)));
                     return;
